@@ -57,7 +57,7 @@ func lex(src string) ([]tok, error) {
 			out = append(out, tok{"str", b.String()})
 			i = j + 1
 		default:
-			ops := []string{"==>", "<==>", ":=", "::", "==", "!=", "<=", ">=", "&&", "||", "+", "-", "*", "/", "%", "<", ">", "!", "(", ")", "[", "]", ",", ".", ":", "?", "="}
+			ops := []string{"==>", "<==>", ":=", "::", "==", "!=", "<=", ">=", "&&", "||", "+", "-", "*", "/", "%", "<", ">", "!", "(", ")", "[", "]", "{", "}", ",", ".", ":", "?", "="}
 			matched := false
 			if strings.HasPrefix(src[i:], "<==>") {
 				out = append(out, tok{"op", "<==>"})
@@ -88,6 +88,7 @@ type SExpr struct {
 	Name string
 	Args []*SExpr
 	Bind []Binder
+	Pats [][]*SExpr // explicit triggers of a quantifier: forall x T :: { t1, t2 } { t3 } body
 }
 type Binder struct {
 	Name string
@@ -191,11 +192,29 @@ func (p *parser) parseExpr() (*SExpr, error) {
 		if err := p.expect("::"); err != nil {
 			return nil, err
 		}
+		var pats [][]*SExpr
+		for p.accept("{") {
+			var group []*SExpr
+			for {
+				pe, err := p.parseExpr()
+				if err != nil {
+					return nil, err
+				}
+				group = append(group, pe)
+				if !p.accept(",") {
+					break
+				}
+			}
+			if err := p.expect("}"); err != nil {
+				return nil, err
+			}
+			pats = append(pats, group)
+		}
 		body, err := p.parseExpr()
 		if err != nil {
 			return nil, err
 		}
-		return &SExpr{Op: t.v, Bind: bs, Args: []*SExpr{body}}, nil
+		return &SExpr{Op: t.v, Bind: bs, Args: []*SExpr{body}, Pats: pats}, nil
 	}
 	return p.parseCond()
 }
